@@ -66,7 +66,7 @@ func stateKeyFor(cls, sender string) *string {
 //	wrongkey  under the sender's server name and key ID, with another private key
 //	other     only by another server (really signed)
 //	tampered  really signed, then a signed field (depth) changed
-//	expired   really signed; the key database says the key stopped being valid before the event's time
+//	expired / revoked   really signed; the key database says valid_until_ts / expired_ts lies before the event's time
 func (w *world) concreteEvent(e AbsEv, ts time.Time) []byte {
 	sender := userOf(e.Ssrv)
 	typ := spec.MRoomMember
